@@ -26,11 +26,11 @@ import (
 
 const (
 	kfFlushMaxBytes   = 20000 // frozen memdb arrays + table files of the base version
-	kfCompactMaxBytes = 9000  // table files of the base version (the builder model re-runs the writer per entry)
+	kfCompactMaxBytes = 8000  // table files of the base version (the builder model re-runs the writer per entry)
 	kfPerRunFlush     = 2
 	kfPerRunCompact   = 3
-	kfCapQuickFlush   = 24
-	kfCapQuickCompact = 40
+	kfCapQuickFlush   = 16
+	kfCapQuickCompact = 32
 	kfCapThorFlush    = 240
 	kfCapThorCompact  = 400
 	kfFileChars       = 280000
